@@ -21,6 +21,16 @@ class K:
         total += unpack('<H', data[1:3])[0] >> 3
         return out, lens, total << 2
 
+    def f3(self, data, key, m, v):
+        """multi-field pack (little / big endian), tuple unpack, xor loop, negative slices"""
+        hdr = pack('<BHI', 7, len(data), v) + pack('>HB', m, 1)
+        lo, hi = unpack('<HH', hdr[1:5])
+        be = unpack('>H', hdr[7:9])[0]
+        out = b''
+        for i in range(len(data)):
+            out += bytes([data[i] ^ key[i]])
+        return hdr, lo + hi + be, out, data[:-m], data[-m:], unpack('<BB', data[0:2])[1]
+
     def bad_while(self, data):
         i = 0
         while i < len(data):
